@@ -31,7 +31,7 @@ func (c15) Plan(tier string) fw.Plan {
 		MinEvents:   []string{"pairs", "node_budget_walks", "link_budget_walks", "startat_walks", "visitonce_walks", "skip_walks", "pairs_with_repeated_links"},
 	}
 	if tier == "thorough" {
-		p.Batches, p.Cases, p.TimeoutSec = 64, 8000, 3300
+		p.Batches, p.Cases, p.TimeoutSec = 64, 1000, 3300
 	}
 	return p
 }
